@@ -108,6 +108,10 @@ def unit_sigtab(tier, seed):
 
 def unit_l0bits(tier, seed):
     import unit_l0bits
+    # the 1023-byte window (every buffer the crate can build, ~40 min) is the thorough tier of C07, the property that is about the bit
+    # codec; the other properties use the L0 contract as a lemma and re-establish it with the quick window in both tiers
+    if tier == 'thorough' and os.environ.get('RTCM_VERIF_PROPERTY') not in (None, '', 'C07'):
+        tier = 'quick'
     return unit_l0bits.run(tier, seed)
 
 
